@@ -1734,11 +1734,39 @@ def list_method(it, fr, l, name, args, kw):
         if name in MUTATORS:
             _mutation(it, l, 'list.' + name)
             if name == 'append':
-                items = fr.iterate(l)
-                raise Unsupported('append to symbolic-length list')
+                slist_extend(it, fr, l, [args[0]])
+                return None
+            if name == 'extend':
+                slist_extend(it, fr, l, args[0])
+                return None
+            if name == 'remove' and len(args) == 1:
+                for i, y in enumerate(list(l.items)):
+                    if it.eng.fork(z3.And(l.n > i, val_eq(it, fr, args[0], y))):
+                        del l.items[i]
+                        l.n = l.n - 1
+                        return None
+                raise PyExc(ValueError('list.remove(x): x not in list'))
+            if name == 'clear' and not args:
+                l.items, l.n = [], z3.IntVal(0)
+                return None
     if hasattr(list, name):
         raise Unsupported('list.' + name)
     raise PyExc(AttributeError(f"'list' object has no attribute '{name}'"))
+
+
+def slist_extend(it, fr, l, values):
+    """in-place extension of a symbolic-length list: the length is decided (one fork per possible length), the object stays the same"""
+    eng = it.eng
+    vals = list(fr.iterate(values))
+    _mutation(it, l, 'list extend')
+    C = len(l.items)
+    k = C
+    for j in range(C):
+        if eng.fork(l.n == j):
+            k = j
+            break
+    l.items = list(l.items[:k]) + vals
+    l.n = z3.IntVal(k + len(vals))
 
 
 def rebind(it, fr, old, new):
